@@ -103,11 +103,12 @@ def build(case):
         lz = []
         for i, nd in enumerate(nodes):
             kw, sp = {"nid": i}, {}
+            late = nd.get("late") or []          # lazy inputs connected by attribute assignment after workflow.add
             for f, b in enumerate(nd["fields"]):
                 kind, v = b[0], b[1]
                 if kind == "const": kw[FN[f]] = v
                 elif kind == "split": sp[FN[f]] = list(v)
-                else: kw[FN[f]] = getattr(lz[v], "out%d" % (b[2] if len(b) > 2 else 0))
+                elif f not in late: kw[FN[f]] = getattr(lz[v], "out%d" % (b[2] if len(b) > 2 else 0))
             t = (NW if nd.get("nested") else T)(**kw)
             if nd["split"]:
                 groups = []
@@ -117,7 +118,11 @@ def build(case):
                 t = t.split(groups[0] if len(groups) == 1 else groups, **sp)
             if nd["comb"]:
                 t = t.combine([FN[f] if n == i else "N%d.%s" % (n, FN[f]) for n, f in nd["comb"]])
-            lz.append(workflow.add(t, name="N%d" % i))
+            lzn = workflow.add(t, name="N%d" % i)
+            for f in late:                       # node.inputs.x = other.out, in the order given by the case
+                b = nd["fields"][f]
+                setattr(lzn._node.inputs, FN[f], getattr(lz[b[1]], "out%d" % (b[2] if len(b) > 2 else 0)))
+            lz.append(lzn)
         return tuple(getattr(l, "out%d" % o) for l in lz for o in (0, 1))
     return W(specstr=json.dumps(case, sort_keys=True))
 
@@ -235,7 +240,7 @@ def spec_axes(case):
     return axes, faxes
 
 
-def finish(nodes, rng, p_comb, p_zip=0.35, p_nested=0.1):
+def finish(nodes, rng, p_comb, p_zip=0.35, p_nested=0.1, p_late=0.3):
     """choose zip groups, splitter order, output selectors, nested-workflow nodes and combiners for bare field lists"""
     out = []
     faxes = []
@@ -276,7 +281,13 @@ def finish(nodes, rng, p_comb, p_zip=0.35, p_nested=0.1):
                 else:
                     comb.append(rng.choice(grp))
         faxes.append([k for k in ax if k not in ccomb])
-        out.append(dict(fields=fields, split=split, zip=zips, comb=comb, nested=rng.random() < p_nested))
+        late = []
+        lazy = [f for f, b in enumerate(fields) if b[0] == "up"]
+        # (a combiner over inherited axes cannot be given before the upstream is connected: State.depth() asserts)
+        if lazy and all(k[0] == i for k in comb) and rng.random() < p_late:   # every lazy input of this node is assigned after workflow.add
+            late = list(lazy)
+            rng.shuffle(late)
+        out.append(dict(fields=fields, split=split, zip=zips, comb=comb, nested=rng.random() < p_nested, late=late))
     return dict(nodes=out)
 
 
@@ -386,6 +397,9 @@ def gen_case(rng):
     for _ in range(200):
         r = rng.random()
         case = gen_random(rng) if r < 0.45 else gen_tree(rng) if r < 0.75 else gen_family(rng)
+        for i, nd in enumerate(case["nodes"]):      # families set combiners after finish(): keep late wiring legal
+            if nd.get("late") and any(k[0] != i for k in nd["comb"]):
+                nd["late"] = []
         if est_jobs(case) <= MAXJOBS:
             return case
     return finish([[["split", [1, 2]]], [["up", 0]]], rng, 0.0)
@@ -534,6 +548,9 @@ def run(ctx):
         dist["with_nested_workflow_node"] = dist.get("with_nested_workflow_node", 0) + any(nd.get("nested") for nd in c["nodes"])
         dist["with_second_output_consumed"] = dist.get("with_second_output_consumed", 0) + any(b[0] == "up" and len(b) > 2 and b[2] == 1 for nd in c["nodes"] for b in nd["fields"])
         dist["cf_worker"] = dist.get("cf_worker", 0) + (c.get("worker") == "cf")
+        dist["with_late_wired_node"] = dist.get("with_late_wired_node", 0) + any(nd.get("late") for nd in c["nodes"])
+        dist["late_wired_fan_in"] = dist.get("late_wired_fan_in", 0) + any(
+            nd.get("late") and len({b[1] for b in nd["fields"] if b[0] == "up"}) >= 2 for nd in c["nodes"])
         dist["impl_raised"] += "exc" in o
         nontriv += nontrivial(c)
     out = Outcome(evaluations=len(cases), distinct_nontrivial=nontriv, rule=RULE,
